@@ -45,3 +45,63 @@ Proof. exact min_delta_final. Qed.
 Theorem C05_min_npix_final : forall n den o, crit_final (MinNpix n den) o = true <-> n <= zlen o * den.
 Proof. exact min_npix_final. Qed.
 Print Assumptions C05_min_delta_at.
+
+(* ------------------------------------------------------------------------------------------
+   "With no pruning requested there is exactly one leaf per regional maximum (plateau-aware)
+   and each leaf's peak lies in its regional maximum."
+
+   np = the criterion that is always true (what compute uses when no pruning parameter is
+   given: C05_no_pruning_is_np).  A plateau is a class of sim = "adjacent kept pixels with
+   equal values"; regmax a = the plateau of the kept pixel a has no kept neighbour of
+   strictly higher value.  topof t z = z is an own pixel of the leaf t carrying t's maximal
+   value.  For every adjacency that is symmetric on the kept pixels, every array, every
+   threshold, ties and plateaus included: *)
+From Coq Require Import Relations Sorted.
+From Dendro Require Import RegMax.
+
+(* every leaf has a peak, its top pixels are one whole plateau, and that plateau is a regional
+   maximum *)
+Theorem C05_leaf_peak_is_a_regional_maximum :
+  forall adj order, NoDup (map fst order) -> sorted_desc order ->
+    (forall a b, In a (map fst order) -> In b (map fst order) -> In b (adj a) -> In a (adj b)) ->
+  forall t, In t (fnodes (run adj np order)) -> is_leaf t = true ->
+    (exists z, topof t z) /\
+    (forall z, topof t z -> regmax adj order z /\ forall b, sim adj order z b -> topof t b) /\
+    (forall z1 z2, topof t z1 -> topof t z2 -> sim adj order z1 z2).
+Proof.
+  intros adj order Hnd Hs Hsym t Ht Hl. split; [|split].
+  - exact (leaf_has_top adj order Hnd Hs Hsym t Ht Hl).
+  - intros z Hz. exact (leaf_top_regmax adj order Hnd Hs Hsym t z Ht Hz).
+  - intros z1 z2. exact (leaf_top_one_plateau adj order Hnd Hs Hsym t z1 z2 Ht).
+Qed.
+Print Assumptions C05_leaf_peak_is_a_regional_maximum.
+
+(* every pixel of every regional maximum is a top pixel of exactly one leaf *)
+Theorem C05_every_regional_maximum_has_its_leaf :
+  forall adj order, NoDup (map fst order) -> sorted_desc order ->
+    (forall a b, In a (map fst order) -> In b (map fst order) -> In b (adj a) -> In a (adj b)) ->
+  forall a, regmax adj order a ->
+    exists t, In t (fnodes (run adj np order)) /\ topof t a /\
+              forall t', In t' (fnodes (run adj np order)) -> topof t' a -> t' = t.
+Proof.
+  intros adj order Hnd Hs Hsym a Ha.
+  destruct (regmax_in_leaf adj order Hnd Hs Hsym a Ha) as [t [Ht Htop]].
+  exists t. split; [exact Ht|]. split; [exact Htop|]. intros t' Ht' Htop'.
+  exact (regmax_leaf_unique adj order Hnd Hs Hsym a t' t Ht' Ht Htop' Htop).
+Qed.
+Print Assumptions C05_every_regional_maximum_has_its_leaf.
+
+(* without pruning parameters compute's criterion is np, and the loop does not depend on how
+   the criterion is written *)
+Theorem C05_no_pruning_is_np :
+  forall adj order, run adj (indep_of []) order = run adj np order.
+Proof. intros adj order. apply run_ext. exact indep_nil. Qed.
+Print Assumptions C05_no_pruning_is_np.
+
+(* the loop invariant behind it: every processed pixel has an ascending path to a top pixel of
+   a leaf that owns it or peaks strictly higher *)
+Theorem C05_ascending_path_invariant :
+  forall adj D f pv, Jinv adj np D f -> NoDup (map fst (D ++ [pv])) ->
+    (forall y vy, In (y, vy) D -> snd pv <= vy) ->
+    INV adj D f -> INV adj (D ++ [pv]) (step adj np f pv).
+Proof. exact INV_step. Qed.
